@@ -6,4 +6,5 @@ MCProg == (1 :> <<[api |-> "put", key |-> "k3", val |-> "a", chunks |-> 1]>>) @@
           (2 :> <<[api |-> "set", key |-> "k1", val |-> "b", chunks |-> 1], [api |-> "get", key |-> "k2", val |-> "", chunks |-> 0]>>)
 MCPre == {[key |-> "k1", val |-> "o1"], [key |-> "k2", val |-> "o2"]}
 MCDebris == {[name |-> "old", age |-> 4000]}
+NoKeyShards == <<>>
 ====
